@@ -6,6 +6,8 @@ import "github.com/panjf2000/gnet/v2/pkg/netpoll"
 
 const variant = "default"
 
+const pollerFile = "poller_epoll_default.go"
+
 func polling(p *netpoll.Poller) error {
 	return p.Polling(ioCallback)
 }
